@@ -35,6 +35,9 @@ type Enc struct {
 	Raw          bool   // raw instead of zlib_data
 	RawSizeOnRaw bool   // also write raw_size on a raw blob (allowed, redundant)
 	IndexData    []byte // BlobHeader.indexdata
+	// ZlibLevel, when not nil, is the compress/zlib level of a zlib blob
+	// (0 = stored blocks, 1..9, -2 = Huffman only); nil = the default level.
+	ZlibLevel *int
 }
 
 // Block is one OSMData block.
@@ -50,6 +53,12 @@ type Block struct {
 	// field numbers, so this is the canonical order); false writes them first.
 	ParamsFirst bool
 	Damage      string // see damage.go; "" = intact
+	// EmptyAtZero makes the empty string use string-table index 0 (the entry every
+	// writer has to put there; osmium and osmosis use it for an empty role or an
+	// anonymous user) wherever an index 0 is allowed: user_sid, way/relation tag
+	// keys and values, roles, dense tag values. A dense tag KEY "" keeps an index
+	// of its own (0 is the delimiter of keys_vals). false: "" gets its own entry.
+	EmptyAtZero bool
 }
 
 // Group is one primitive group: exactly one of the fields is used.
@@ -70,6 +79,10 @@ type Dense struct {
 	Info     bool
 	Cols     [6]bool
 	KeysVals bool
+	// EmptyKeysVals writes keys_vals as a packed field of length 0 (the protobuf
+	// encoding of "no values", equivalent to leaving the field out) instead of one
+	// 0 per node; only meaningful with KeysVals and all nodes tagless.
+	EmptyKeysVals bool
 }
 
 // DNode is a node in logical (absolute, not delta-coded) values. Lat/Lon are raw
@@ -131,10 +144,13 @@ type Relation struct {
 type strtab struct {
 	s   []string
 	idx map[string]int
+	// emptyAtZero: id("") is 0; denseKey("") still gets a non-zero entry
+	emptyAtZero bool
+	emptyKey    int
 }
 
-func newStrtab(extra []string) *strtab {
-	t := &strtab{s: []string{""}, idx: map[string]int{}}
+func newStrtabZ(extra []string, emptyAtZero bool) *strtab {
+	t := &strtab{s: []string{""}, idx: map[string]int{}, emptyAtZero: emptyAtZero}
 	for _, e := range extra {
 		t.s = append(t.s, e) // deliberately not indexed: unused entries
 	}
@@ -142,12 +158,27 @@ func newStrtab(extra []string) *strtab {
 }
 
 func (t *strtab) id(s string) int64 {
+	if s == "" && t.emptyAtZero {
+		return 0
+	}
 	if i, ok := t.idx[s]; ok {
 		return int64(i)
 	}
 	t.s = append(t.s, s)
 	t.idx[s] = len(t.s) - 1
 	return int64(len(t.s) - 1)
+}
+
+// denseKey is id for a key inside keys_vals, where index 0 is the delimiter.
+func (t *strtab) denseKey(s string) int64 {
+	if s == "" && t.emptyAtZero {
+		if t.emptyKey == 0 {
+			t.s = append(t.s, "")
+			t.emptyKey = len(t.s) - 1
+		}
+		return int64(t.emptyKey)
+	}
+	return t.id(s)
 }
 
 func (t *strtab) bytes() []byte {
@@ -201,7 +232,7 @@ func encDense(d *Dense, st *strtab, dmg string) []byte {
 		}
 		if d.KeysVals {
 			for _, t := range nd.Tags {
-				kv = append(kv, st.id(t[0]), st.id(t[1]))
+				kv = append(kv, st.denseKey(t[0]), st.id(t[1]))
 			}
 			kv = append(kv, 0)
 		}
@@ -299,6 +330,9 @@ func encDense(d *Dense, st *strtab, dmg string) []byte {
 		w.fBytes(9, packedSint(delta(lons)))
 	}
 	if d.KeysVals {
+		if d.EmptyKeysVals {
+			kv = nil
+		}
 		w.fBytes(10, packedInt(kv))
 	}
 	return w.b
@@ -397,7 +431,7 @@ func encPlainNode(n *DNode, st *strtab) []byte {
 
 // PrimitiveBlock returns the serialized PrimitiveBlock message.
 func (b *Block) PrimitiveBlock() []byte {
-	st := newStrtab(b.ExtraStrings)
+	st := newStrtabZ(b.ExtraStrings, b.EmptyAtZero)
 	// Damage is "<target>:<name>" with target dense, way, rel or block.
 	part := func(target string) string {
 		if strings.HasPrefix(b.Damage, target+":") {
@@ -509,6 +543,7 @@ type BlobOpts struct {
 	CorruptZlib  bool  // flip bytes inside the compressed stream
 	TruncateZlib bool  // drop the tail of the compressed stream (blob stays well-formed protobuf)
 	BadChecksum  bool  // damage the Adler-32 trailer of the compressed stream
+	ZlibLevel    *int  // compress/zlib level, nil = default
 	LZMA         bool  // put the payload in lzma_data (field 4) only
 	Empty        bool  // blob with no data field at all
 	Garbage      bool  // blob bytes that are not a protobuf message
@@ -533,6 +568,9 @@ func EncodeBlob(payload []byte, o BlobOpts) []byte {
 	default:
 		var z bytes.Buffer
 		zw := zlib.NewWriter(&z)
+		if o.ZlibLevel != nil {
+			zw, _ = zlib.NewWriterLevel(&z, *o.ZlibLevel)
+		}
 		zw.Write(payload)
 		zw.Close()
 		zb := z.Bytes()
@@ -595,7 +633,9 @@ func EncodeFileBlock(typ string, blob []byte, o FileBlockOpts) []byte {
 	return out
 }
 
-func (e Enc) blobOpts() BlobOpts { return BlobOpts{Raw: e.Raw, RawSizeOnRaw: e.RawSizeOnRaw} }
+func (e Enc) blobOpts() BlobOpts {
+	return BlobOpts{Raw: e.Raw, RawSizeOnRaw: e.RawSizeOnRaw, ZlibLevel: e.ZlibLevel}
+}
 
 // Encoded is the byte form of a File with the layout facts the oracles need.
 type Encoded struct {
